@@ -2,6 +2,7 @@
 import sys
 
 from sa import report, rules_repr as RR2, rules_emit as RE, rules_order as RO, rules_registry as RR
+from sa import rules_extra as RX
 
 
 def run(ctx, repo):
@@ -27,7 +28,9 @@ def run(ctx, repo):
     RR2.r_alias_key(ctx, repo)
     RO.r_two_phase(ctx, repo)
     RO.r_construct_cache(ctx, repo)
-
+    RX.r_simple_key_fits(ctx, repo)
+    RX.r_block_hint_leading(ctx, repo)
+    RX.r_analyze_special(ctx, repo)
 
 if __name__ == '__main__':
     sys.exit(report.main('C02', 'other', run))
